@@ -110,21 +110,40 @@ def components(rng, quick):
     # long words that agree in their first positions and differ only in the tail, on both sides of a decision boundary (a decoder that keys or
     # packs a word into a limited-precision number sees them as equal)
 
-    def tail_twins(n, head_weight, tail=7):
+    def tail_twins(n, head_weight, tail=7, base=None):
+        """Pools of words that agree everywhere except in their last (or, mirrored, their first) `tail` positions: members that a
+        lossy key (a word packed into a float, high or low end first) cannot tell apart."""
         def f():
             out = []
             for _ in range(2):
-                head = [1.0] * head_weight + [0.0] * (n - tail - head_weight)
-                rng.shuffle(head)
+                if base is not None:
+                    b = [float(v) for v in base()]
+                else:
+                    b = [1.0] * head_weight + [0.0] * (n - tail - head_weight)
+                    rng.shuffle(b)
+                    b = b + [0.0] * tail
                 for v in rng.sample(range(1 << tail), 40):
-                    out.append(torch.tensor(head + [float((v >> j) & 1) for j in range(tail)]))
-                out.append(torch.tensor(head + [0.0] * tail))
+                    out.append(torch.tensor(b[:n - tail] + [float((v >> j) & 1) for j in range(tail)]))
+                out.append(torch.tensor(b[:n - tail] + [0.0] * tail))
+                # mirrored: equal tails (with a one in the last position), different first positions
+                m = list(b[tail:n - 1]) + [1.0]
+                for v in rng.sample(range(1 << tail), 40):
+                    out.append(torch.tensor([float((v >> j) & 1) for j in range(tail)] + m))
             return out
         return f
     rep31 = E.RepetitionCodeEncoder(31)
     C.append(Comp("BruteForceMLDecoder/Repetition(31)", "BruteForceMLDecoder", lambda: D.BruteForceMLDecoder(E.RepetitionCodeEncoder(31)), recv_pool(rep31), dense=tail_twins(31, 15)))
     rm15 = E.ReedMullerCodeEncoder(1, 5)
     C.append(Comp("BruteForceMLDecoder/RM(1,5)", "BruteForceMLDecoder", lambda: D.BruteForceMLDecoder(E.ReedMullerCodeEncoder(1, 5)), recv_pool(rm15), dense=tail_twins(32, 12)))
+    bch31 = E.BCHCodeEncoder(5, 5)
+
+    def near_codeword31():
+        c = bch31(torch.tensor([[float(rng.randrange(2)) for _ in range(21)]]))[0].tolist()
+        for j in rng.sample(range(7, 24), rng.randint(0, 2)):
+            c[j] = 1.0 - c[j]
+        return c
+    C.append(Comp("BerlekampMasseyDecoder/BCH(31,21)", "BerlekampMasseyDecoder", lambda: D.BerlekampMasseyDecoder(E.BCHCodeEncoder(5, 5)), recv_pool(bch31),
+                  dense=tail_twins(31, 0, base=near_codeword31)))
     C.append(Comp("BerlekampMasseyDecoder/BCH(15,7)", "BerlekampMasseyDecoder", lambda: D.BerlekampMasseyDecoder(E.BCHCodeEncoder(4, 5)), recv_pool(bch), dense=ball(bch, 2)))
     C.append(Comp("SyndromeLookupDecoder/BCH(15,7)", "SyndromeLookupDecoder", lambda: D.SyndromeLookupDecoder(E.BCHCodeEncoder(4, 5)), recv_pool(bch), dense=ball(bch, 2)))
     C.append(Comp("ReedMullerDecoder(hard)/RM(1,3)", "ReedMullerDecoder", lambda: D.ReedMullerDecoder(E.ReedMullerCodeEncoder(1, 3)), recv_pool(E.ReedMullerCodeEncoder(1, 3))))
